@@ -966,3 +966,7 @@ impl Reader {
         Ok(Settings { raw: raw })
     }
 }
+
+#[cfg(any(kani, libtw2_verif))]
+#[path = "/verif/kani/map_reader.rs"]
+mod verif_kani;
